@@ -12,7 +12,7 @@
    step with the types ([gh_inv]).  A source that compiles a graph with pending entries or an
    untyped node, converts only one of the two handlers' results, takes the converter of the other
    side, or restricts the conversion to some passthrough nodes makes this stop compiling. *)
-From Eino Require Import Base.Util Model.Types Model.TypesGenLib Model.TypeBuilder Model.TypeBuilderGenLib.
+From Eino Require Import Base.Util Model.Types Model.TypesGenLib Model.TypeBuilder Model.TypeBuilderGenLib Model.TypeBuilderGenLib2.
 From Eino Require Import Proofs.TypesBuilder Proofs.GenAgreeC07Validate.
 From Eino Require Gen.ValidateCode Gen.CompileCode.
 Module V := Gen.ValidateCode.
@@ -24,31 +24,85 @@ Proof.
   rewrite (H a (or_introl eq_refl)), IH; [reflexivity|]. intros x Hx. apply H. right. exact Hx.
 Qed.
 
+Lemma In_get_node : forall (l : list (key * node)) k n, In (k, n) l -> exists n', nlist_get k l = Some n' /\ In (k, n') l.
+Proof.
+  induction l as [|[k0 n0] l IH]; intros k n H; [destruct H|]. simpl.
+  destruct (N.eqb_spec k k0) as [E|E].
+  - subst k0. exists n0. split; [reflexivity | left; reflexivity].
+  - destruct H as [H|H]; [inversion H; subst; congruence|].
+    destruct (IH k n H) as [n' [A B]]. exists n'. split; [exact A | right; exact B].
+Qed.
+
+Lemma existsb_false_forall : forall {A} (f : A -> bool) l, existsb f l = false -> forall x, In x l -> f x = false.
+Proof.
+  intros A f l; induction l as [|a l IH]; intros H x Hx; [destruct Hx|]. simpl in H.
+  apply Bool.orb_false_iff in H. destruct H as [H1 H2]. destruct Hx as [Hx|Hx]; [subst; exact H1 | exact (IH H2 x Hx)].
+Qed.
+
+(* a node without helper has no type (repair 0136457: compile asks for the helper of a passthrough node as well):
+   where the helpers are in step with the types, a node stored under [k] whose helper is nil means that the node
+   found under [k] is untyped *)
+Lemma nil_helper_untyped : forall xs k n, gh_inv xs -> In (k, n) (g_nodes (x_st xs)) -> gh_is_nil (x_node_cr_gh xs k) = true ->
+  exists q, In q (g_nodes (x_st xs)) /\ n_in (snd q) = None.
+Proof.
+  intros xs k n I Hin Hnil. unfold x_node_cr_gh in Hnil.
+  destruct (N.eqb k kSTART) eqn:Es; [discriminate|]. destruct (N.eqb k kEND) eqn:Ee; [discriminate|].
+  destruct (In_get_node _ _ _ Hin) as [n' [G Hin']].
+  destruct (n_in n') as [t|] eqn:Ht.
+  - exfalso. destruct (I k) as [I1 _].
+    assert (A : in_ty (x_st xs) k = Some t) by (unfold in_ty, get_node; rewrite Es, Ee, G; exact Ht).
+    specialize (I1 t A). rewrite gen_get_node_generic_helper_agrees, Es, Ee in I1.
+    destruct (x_node_gh xs k); [discriminate Hnil | discriminate I1].
+  - exists (k, n'). split; [exact Hin' | exact Ht].
+Qed.
+
 (* [known_together]: a node's input type is known iff its output type is (a lambda is declared with
    both, a passthrough node gets both at once: [nodes_ok] of Proofs/TypesBuilder.v for every
-   reachable state) *)
+   reachable state); [gh_inv]: the helpers are in step with the types, so the test on the helper of a
+   passthrough node (repair 0136457) refuses nothing that the test on the types does not refuse *)
 Theorem gen_compile_checks_agrees : forall xs,
   (forall p, In p (g_nodes (x_st xs)) -> (n_in (snd p) = None <-> n_out (snd p) = None)) ->
+  gh_inv xs ->
   g_err (x_st xs) = false ->
   compile (x_st xs) = ((if C.compile_checks xs then set_compiled (x_st xs) else x_st xs), C.compile_checks xs).
 Proof.
-  intros xs K E. unfold compile, C.compile_checks, x_any_pending, x_any_node. rewrite E.
+  intros xs K I E. unfold compile, C.compile_checks, x_any_pending, x_any_node, x_any_node_k. rewrite E.
   destruct (g_has_start (x_st xs)); destruct (g_has_end (x_st xs)); cbn [negb andb orb]; try reflexivity.
   destruct (g_tvm (x_st xs)); [|reflexivity].
-  (* whatever way the untyped-node test is spelled, on these states it is "the input type is unknown" *)
+  (* whatever way the untyped-node test is spelled, on these states it is "some node's input type is unknown" *)
   match goal with |- context [existsb ?f (g_nodes (x_st xs))] =>
     match f with
     | (fun p : key * node => match n_in (snd p) with None => true | Some _ => false end) => fail 1
     | _ =>
       assert (X : existsb f (g_nodes (x_st xs)) =
-                  existsb (fun p : key * node => match n_in (snd p) with None => true | Some _ => false end) (g_nodes (x_st xs)))
-        by (apply existsb_ext_in; intros p Hp; destruct (K p Hp) as [K1 K2];
-            destruct (n_in (snd p)) as [a|]; destruct (n_out (snd p)) as [b|]; simpl; try reflexivity;
-            try (specialize (K2 eq_refl); discriminate); try (specialize (K1 eq_refl); discriminate));
-      rewrite X
+                  existsb (fun p : key * node => match n_in (snd p) with None => true | Some _ => false end) (g_nodes (x_st xs)));
+      [|rewrite X]
     end
   end.
-  match goal with |- context [existsb ?f ?l] => destruct (existsb f l) end; reflexivity.
+  2: match goal with |- context [existsb ?f ?l] => destruct (existsb f l) end; reflexivity.
+  match goal with |- existsb ?f ?l = existsb ?g ?l =>
+    destruct (existsb g l) eqn:Eg
+  end.
+  - (* some node is untyped: the translated test sees it *)
+    apply existsb_exists in Eg. destruct Eg as [p [Hp Hu]]. apply existsb_exists. exists p. split; [exact Hp|].
+    destruct (K p Hp) as [K1 K2]. destruct (n_in (snd p)); [discriminate|]. rewrite (K1 eq_refl). reflexivity.
+  - (* every node is typed: neither test fires *)
+    apply Bool.not_true_is_false. intro Ht. apply existsb_exists in Ht. destruct Ht as [p [Hp Hf]].
+    pose proof (existsb_false_forall _ _ Eg) as All.
+    assert (U : n_in (snd p) <> None) by (intro U; specialize (All p Hp); simpl in All; rewrite U in All; discriminate).
+    destruct (K p Hp) as [K1 K2].
+    destruct (n_in (snd p)) as [a|] eqn:Ea; [|congruence].
+    destruct (n_out (snd p)) as [b|] eqn:Eb; [|specialize (K2 eq_refl); discriminate].
+    cbn [rt_is_nil orb] in Hf.
+    try (destruct p as [k n]; cbn [fst snd] in *;
+         repeat match type of Hf with
+                | context [rt_is_nil (Some _)] => cbn [rt_is_nil] in Hf
+                end;
+         cbn [orb andb] in Hf;
+         apply Bool.andb_true_iff in Hf; destruct Hf as [_ Hn];
+         destruct (nil_helper_untyped xs k n I Hp Hn) as [q [Hq Uq]];
+         specialize (All q Hq); simpl in All; rewrite Uq in All; discriminate).
+    all: try discriminate.
 Qed.
 
 Theorem gen_handler_convs_agrees : forall xs k n ti to,
